@@ -277,10 +277,15 @@ def write_table(table, filename):
     try:
         if os.path.exists(filename):
             os.remove(filename)
-        table.write(filename)
+        fmt = os.path.splitext(filename)[-1][1:].lower()
+        if fmt in ['vo', 'vot', 'xml']:
+            # astropy does not infer the votable format from the extension
+            table.write(filename, format='votable')
+        else:
+            table.write(filename)
         log.info("Wrote {0}".format(filename))
     except Exception as e:
-        if "Format could not be identified" not in e.message:
+        if "Format could not be identified" not in str(e):
             raise e
         else:
             # extension sans '.'
